@@ -27,7 +27,8 @@ type XItem struct {
 	Text   string `json:"t,omitempty"` // text / comment body / directive body / PI instruction
 	Target string `json:"g,omitempty"` // PI target
 	CData  bool   `json:"cd,omitempty"`
-	Split  int    `json:"sp,omitempty"` // text written in two pieces side by side: n>0 plain Text[:n] then CDATA, n<0 CDATA Text[:-n] then plain
+	Split  int    `json:"sp,omitempty"`  // text written in two pieces side by side: n>0 plain Text[:n] then CDATA, n<0 CDATA Text[:-n] then plain
+	Split2 int    `json:"sp2,omitempty"` // with Split: a third piece Text[Split2:] of the same kind as the first one (the middle piece is Text[|Split|:Split2])
 }
 
 // XElem is an element.
@@ -232,11 +233,20 @@ func renderElem(sb *strings.Builder, e *XElem, rv int) {
 				if n < 0 {
 					n, plainFirst = -n, false
 				}
-				a, b := it.Text[:n], it.Text[n:]
+				a, b, t3 := it.Text[:n], it.Text[n:], ""
+				if it.Split2 > n {
+					b, t3 = it.Text[n:it.Split2], it.Text[it.Split2:]
+				}
 				if plainFirst {
 					sb.WriteString(xmlEsc(a, false) + "<![CDATA[" + b + "]]>")
+					if it.Split2 > n {
+						sb.WriteString(xmlEsc(t3, false))
+					}
 				} else {
 					sb.WriteString("<![CDATA[" + a + "]]>" + xmlEsc(b, false))
+					if it.Split2 > n {
+						sb.WriteString("<![CDATA[" + t3 + "]]>")
+					}
 				}
 			} else if it.CData {
 				sb.WriteString("<![CDATA[" + it.Text + "]]>")
@@ -334,13 +344,14 @@ func baseTrees(n int, rootName string, names []string, maxKids int) []*XElem {
 
 // Deco is one decoration applied to element number El (document order) of a base tree.
 type Deco struct {
-	Kind  byte   `json:"k"`  // 'a' attribute, 't' text, 'n' rename, 'c' comment, 'p' procinst, 'd' directive
-	El    int    `json:"el"` // element index
-	Pos   int    `json:"pos,omitempty"`
-	Name  string `json:"name,omitempty"`
-	Value string `json:"value,omitempty"`
-	CData bool   `json:"cdata,omitempty"`
-	Split int    `json:"split,omitempty"`
+	Kind   byte   `json:"k"`  // 'a' attribute, 't' text, 'n' rename, 'c' comment, 'p' procinst, 'd' directive
+	El     int    `json:"el"` // element index
+	Pos    int    `json:"pos,omitempty"`
+	Name   string `json:"name,omitempty"`
+	Value  string `json:"value,omitempty"`
+	CData  bool   `json:"cdata,omitempty"`
+	Split  int    `json:"split,omitempty"`
+	Split2 int    `json:"split2,omitempty"`
 }
 
 func splitQ(q string) (string, string) {
@@ -393,7 +404,7 @@ func applyDecos(base *XElem, ds []Deco) (*XElem, bool) {
 				return nil, false
 			}
 			textOn[d.El] = true
-			pending[d.El] = append(pending[d.El], ins{d.Pos, XItem{Kind: 't', Text: d.Value, CData: d.CData, Split: d.Split}, i})
+			pending[d.El] = append(pending[d.El], ins{d.Pos, XItem{Kind: 't', Text: d.Value, CData: d.CData, Split: d.Split, Split2: d.Split2}, i})
 		case 'c':
 			pending[d.El] = append(pending[d.El], ins{d.Pos, XItem{Kind: 'c', Text: d.Value}, i})
 		case 'p':
